@@ -52,6 +52,19 @@ fn words(maxlen: usize) -> Vec<Vec<Op>> {
     out.into_iter().filter(|w| w.iter().any(|o| matches!(o, Op::Set(..)))).collect()
 }
 
+/// the word leaves `key` present
+fn e_has(word: &[Op], key: u8) -> bool {
+    let mut present = false;
+    for o in word {
+        match o {
+            Op::Set(k, _) if *k == key => present = true,
+            Op::Del(k) if *k == key => present = false,
+            _ => {}
+        }
+    }
+    present
+}
+
 fn build(dir: &Path, cfg: Cfg, word: &[Op]) -> Result<Exec, String> {
     iohook::set_seed(Some(cfg.seed));
     let mut e = Exec::open(dir, cfg)?;
@@ -193,6 +206,99 @@ pub fn stall_case(dir: &Path, cfg: Cfg, word: &[Op], key: u8, n: usize, other: u
     iohook::rec_stop();
     r
 }
+/// A get whose every open of a data file is slow, and a full merge (which relocates the value and
+/// removes the file) that completes during each of those opens if the store lets it: the get
+/// returns the model's value however many merges overtake it.
+pub fn merge_storm_case(dir: &Path, cfg: Cfg, word: &[Op], key: u8) -> Result<String, (String, String)> {
+    use std::time::Duration;
+    iohook::rec_start(&dir.to_string_lossy());
+    let r = (|| {
+        let e = build(dir, cfg, word).map_err(|m| ("MACHINERY".to_string(), m))?;
+        let want = e.model.get(&key_bytes(key)).cloned();
+        let root = dir.to_string_lossy().to_string();
+        let h1 = e.h().clone();
+        let kb = key_bytes(key);
+        iohook::stall_rounds_reset();
+        let th = std::thread::spawn(move || {
+            iohook::rec_start(&root);
+            iohook::stall_every_open_on_this_thread(true);
+            let r = std::panic::catch_unwind(std::panic::AssertUnwindSafe(|| h1.get(bytes::Bytes::from(kb)).map(|o| o.map(|v| v.to_vec())).map_err(|e| e.to_string())));
+            iohook::stall_every_open_on_this_thread(false);
+            iohook::rec_stop();
+            r.map_err(|p| panic_text(p))
+        });
+        let mut rounds = 0usize;
+        let mut merges_done = 0usize;
+        while rounds < 12 {
+            let t0 = Instant::now();
+            while iohook::stall_round_entered() <= rounds && !th.is_finished() && t0.elapsed() < Duration::from_secs(5) {
+                std::thread::sleep(Duration::from_micros(50));
+            }
+            if th.is_finished() || iohook::stall_round_entered() <= rounds {
+                break;
+            }
+            rounds += 1;
+            // the get is inside its open: a merge gets the chance to complete now
+            let h2 = e.h().clone();
+            let root2 = dir.to_string_lossy().to_string();
+            let tm = std::thread::spawn(move || {
+                iohook::rec_start(&root2);
+                let r = h2.verif_merge().map_err(|e| e.to_string());
+                iohook::rec_stop();
+                r
+            });
+            let t1 = Instant::now();
+            while !tm.is_finished() && t1.elapsed() < Duration::from_millis(30) {
+                std::thread::sleep(Duration::from_micros(200));
+            }
+            let merged_meanwhile = tm.is_finished();
+            iohook::stall_round_release(rounds);
+            let t2 = Instant::now();
+            while !tm.is_finished() && t2.elapsed() < Duration::from_secs(10) {
+                std::thread::sleep(Duration::from_micros(200));
+            }
+            if !tm.is_finished() {
+                iohook::stall_round_release(usize::MAX / 2);
+                return Err(("merge-hangs-beside-a-slow-get".to_string(), format!("round {}: the merge has not returned 10 s after the get's open completed", rounds)));
+            }
+            match tm.join() {
+                Ok(Ok(())) => {}
+                Ok(Err(m)) => return Err(("merge-fails-beside-a-slow-get".to_string(), format!("round {}: {}", rounds, m))),
+                Err(_) => return Err(("merge-panics-beside-a-slow-get".to_string(), format!("round {}", rounds))),
+            }
+            if merged_meanwhile {
+                merges_done += 1;
+            }
+        }
+        iohook::stall_round_release(usize::MAX / 2);
+        let t3 = Instant::now();
+        while !th.is_finished() && t3.elapsed() < Duration::from_secs(10) {
+            std::thread::sleep(Duration::from_micros(200));
+        }
+        if !th.is_finished() {
+            return Err(("get-hangs-beside-merges".to_string(), format!("after {} rounds ({} merges completed while the get was inside an open) the get has not returned", rounds, merges_done)));
+        }
+        match th.join().unwrap() {
+            Err(p) => return Err(("get-panics-beside-merges".to_string(), format!("after {} merges overtook it: {}", merges_done, p))),
+            Ok(Err(m)) => return Err(("get-error".to_string(), format!("get({}) failed although nothing was injected ({} merges overtook it): {}", hex(&key_bytes(key)), merges_done, m))),
+            Ok(Ok(v)) => {
+                if v != want {
+                    return Err(("wrong-value-while-merges-relocate-it".to_string(), format!("get({}) = {:?}, model {:?}; {} merges completed while the get was inside an open of a data file, {} opens in all", hex(&key_bytes(key)), v.as_ref().map(|x| hex(x)), want.as_ref().map(|x| hex(x)), merges_done, rounds)));
+                }
+            }
+        }
+        for k in KEYS {
+            let want = e.model.get(&key_bytes(k)).cloned();
+            match e.get(k) {
+                Ok(v) if v == want => {}
+                other => return Err(("reads-wrong-after-merges-beside-a-get".to_string(), format!("get({}) = {:?}, model {:?}", hex(&key_bytes(k)), other.map(|o| o.map(|x| hex(&x))), want.as_ref().map(|x| hex(x))))),
+            }
+        }
+        Ok(format!("merge-storm:{}-opens:{}", rounds.min(9), if merges_done > 0 { "overtaken" } else { "merge-waited" }))
+    })();
+    iohook::rec_stop();
+    r
+}
 fn panic_text(p: Box<dyn std::any::Any + Send>) -> String {
     p.downcast_ref::<String>().cloned().or_else(|| p.downcast_ref::<&str>().map(|s| s.to_string())).unwrap_or_else(|| "panic".into())
 }
@@ -236,6 +342,17 @@ pub fn worker(job: &Job) -> Shard {
                     }
                 };
                 sh.evaluations += 1;
+                // merges that overtake a slow get (no cached descriptor: every get opens its file)
+                if cfg.cache == 0 && w.len() <= 2 && e_has(w, key) {
+                    sh.evaluations += 1;
+                    sh.transitions += 3;
+                    let mk3 = json!({"engine": "sched", "kind": "readfault", "mode": "merge-storm", "cfg": cfg.to_json(), "word": word_json(w), "key": key, "fault_at_read_path_call": 0});
+                    match merge_storm_case(&dir, *cfg, w, key) {
+                        Ok(o) => sh.outcome(o),
+                        Err((c, m)) if c == "MACHINERY" => sh.machinery_errors.push(format!("merge storm {} | {} under {:?}", m, show_word(w), cfg)),
+                        Err((c, m)) => sh.violate(Violation { class: format!("C04:{}", c), msg: format!("{} | state after {} under {:?}", m, show_word(w), cfg), case: mk3 }),
+                    }
+                }
                 // a SLOW read instead of a failing one: with a pool of one reader, the get is stalled
                 // at each of its read-path calls while another thread gets either key
                 if cfg.conc == 1 && w.len() <= 2 {
@@ -277,6 +394,15 @@ pub fn replay(case_json: &Value) -> Vec<Violation> {
     let (Some(cfg), Some(word)) = (Cfg::from_json(&case_json["cfg"]), crate::e1::word_from_json(&case_json["word"])) else { return vec![] };
     let key = case_json["key"].as_u64().unwrap_or(0) as u8;
     let n = case_json["fault_at_read_path_call"].as_u64().unwrap_or(0) as usize;
+    if case_json["mode"] == "merge-storm" {
+        let r = merge_storm_case(&dir, cfg, &word, key);
+        rmrf(&dir);
+        println!("replayed merge-storm case: {:?}", r);
+        return match r {
+            Err((c, m)) if c != "MACHINERY" => vec![Violation { class: format!("C04:{}", c), msg: m, case: case_json.clone() }],
+            _ => vec![],
+        };
+    }
     if case_json["mode"] == "stall" {
         let r = stall_case(&dir, cfg, &word, key, n, case_json["other"].as_u64().unwrap_or(0) as u8);
         rmrf(&dir);
